@@ -194,3 +194,75 @@ func AnalyzeChoiceBlind(g *Grammar) *Analysis {
 	}
 	return a
 }
+
+// AnalyzeThrowAware is the exact analysis extended by one conservative rule:
+// a throw of label l may invoke any recovery expression of the grammar that
+// lists l, so the first-call set of the throw contains theirs. Used to
+// recognise finding D26 (left recursion through a handler of another rule).
+func AnalyzeThrowAware(g *Grammar) *Analysis {
+	exact := Analyze(g)
+	handlers := map[string][]*Expr{}
+	for _, r := range g.Rules {
+		r.Expr.Walk(func(e *Expr) {
+			if e.K == KRecover {
+				for _, l := range e.FailLabels {
+					handlers[l] = append(handlers[l], e.Kids[1])
+				}
+			}
+		})
+	}
+	a := &Analysis{Nullable: exact.Nullable, First: map[string]map[string]bool{}, LeftRec: map[string]bool{}}
+	var first func(e *Expr, set map[string]bool, depth int)
+	first = func(e *Expr, set map[string]bool, depth int) {
+		switch e.K {
+		case KRef:
+			set[e.Name] = true
+		case KThrow:
+			if depth < 8 {
+				for _, h := range handlers[e.Name] {
+					first(h, set, depth+1)
+				}
+			}
+		case KSeq:
+			for _, k := range e.Kids {
+				first(k, set, depth)
+				if !exact.nullable(k) {
+					return
+				}
+			}
+		case KChoice, KRecover:
+			for _, k := range e.Kids {
+				first(k, set, depth)
+			}
+		case KOpt, KStar, KPlus, KAnd, KNot, KLabel, KAction:
+			first(e.Kids[0], set, depth)
+		}
+	}
+	for _, r := range g.Rules {
+		set := map[string]bool{}
+		first(r.Expr, set, 0)
+		a.First[r.Name] = set
+	}
+	for _, r := range g.Rules {
+		seen := map[string]bool{}
+		var dfs func(n string) bool
+		dfs = func(n string) bool {
+			for m := range a.First[n] {
+				if m == r.Name {
+					return true
+				}
+				if !seen[m] {
+					seen[m] = true
+					if dfs(m) {
+						return true
+					}
+				}
+			}
+			return false
+		}
+		if dfs(r.Name) {
+			a.LeftRec[r.Name] = true
+		}
+	}
+	return a
+}
